@@ -1187,6 +1187,8 @@ class IntermediateColumnarFormatWriter:
 
     def process_partition(self, partition_index):
         self.load_metadata()
+        if (self.path / "metadata.json").exists():
+            raise ValueError(f"ICF path has already been finalised: {self.path}")
         summary_path = self.wip_path / f"p{partition_index}.json"
         # If someone is rewriting a summary path (for whatever reason), make sure it
         # doesn't look like it's already been completed.
